@@ -218,7 +218,7 @@ void WorldQ::on_queue_event(const Event &e) {
       if (!enabled("c01") || !m->tagged) break;
       if (!signaled && code == 0 && !m->published) violate("C01.success-without-publication", m->id + " exited 0 but todo/" + std::to_string(m->num) + " was never linked");
       bool faulty = m->fault_hit;
-      for (auto &f : k->faults) if (f.fired && (f.kind == "signal" || f.kind == "null" || f.kind == "kill" || f.kind == "stall")) { if (f.actor.empty() || p->actor().compare(0, f.actor.size(), f.actor) == 0 || f.actor.compare(0, 11, "qmail-queue") == 0) faulty = true; }
+      for (auto &f : k->faults) if (f.fired && (f.kind == "signal" || f.kind == "signal_after" || f.kind == "null" || f.kind == "kill" || f.kind == "stall")) { if (f.actor.empty() || p->actor().compare(0, f.actor.size(), f.actor) == 0 || f.actor.compare(0, 11, "qmail-queue") == 0) faulty = true; }
       if (k->fault_counts.count("alloc_fail")) faulty = true;
       int want = expected_exit(m->env_raw);
       if (!signaled && !faulty) {
